@@ -330,8 +330,97 @@ static void run_case(const drvargs_t *a,long id){
   stream_free(&s); buf_free(&phys);
 }
 
+
+/* ------------------------------------------------------------------ C07, begin-trimmed links (mode c07b) */
+/* A begin-trimmed link: every granule position lowered by t (what a stream cutter leaves).  The Vorbis I specification has the decoder drop the first t samples; the
+   link then has N-t samples, and sample j of it is sample j+t of the untrimmed decode.  The expected audio comes from the packet-level decoder on the untrimmed packets. */
+typedef struct { int ch; long n; float **pcm; } full_t;
+static void full_free(full_t *f){ if(f->pcm){ for(int c=0;c<f->ch;c++) free(f->pcm[c]); free(f->pcm); } memset(f,0,sizeof *f); }
+static int full_decode(const pktlist_t *pk,full_t *o){
+  vorbis_info vi; vorbis_comment vc; vorbis_dsp_state vd; vorbis_block vb; ogg_packet op; memset(o,0,sizeof *o); long cap=0;
+  vorbis_info_init(&vi); vorbis_comment_init(&vc);
+  for(int i=0;i<3;i++){ pkt_to_ogg(&pk->v[i],&op); if(vorbis_synthesis_headerin(&vi,&vc,&op)<0){ vorbis_comment_clear(&vc); vorbis_info_clear(&vi); return -1; } }
+  if(vorbis_synthesis_init(&vd,&vi)){ vorbis_comment_clear(&vc); vorbis_info_clear(&vi); return -1; }
+  vorbis_block_init(&vd,&vb); o->ch=vi.channels; o->pcm=calloc(o->ch,sizeof(float*));
+  for(int i=3;i<pk->n;i++){ pkt_to_ogg(&pk->v[i],&op); if(vorbis_synthesis(&vb,&op)==0) vorbis_synthesis_blockin(&vd,&vb); float **pcm; int n;
+    while((n=vorbis_synthesis_pcmout(&vd,&pcm))>0){ if(o->n+n>cap){ cap=cap?cap*2:16384; while(cap<o->n+n)cap*=2; for(int c=0;c<o->ch;c++) o->pcm[c]=realloc(o->pcm[c],sizeof(float)*cap); }
+      for(int c=0;c<o->ch;c++) memcpy(o->pcm[c]+o->n,pcm[c],sizeof(float)*n); o->n+=n; vorbis_synthesis_read(&vd,n); } }
+  vorbis_block_clear(&vb); vorbis_dsp_clear(&vd); vorbis_comment_clear(&vc); vorbis_info_clear(&vi); return 0;
+}
+static void case_c07b(const drvargs_t *a,long id){
+  rng_t r; rng_seed(&r,a->seed,0x7b,(uint64_t)id); res_begin(id);
+  chaindesc_t cd; gen_chain(&r,3,a->thorough?20000:9000,0,&cd); char desc[600]; buf_t phys; buf_init(&phys);
+  int nl=cd.nlinks, bt=(int)rng_below(&r,(uint32_t)nl); full_t full[3]; long trim[3]={0,0,0}, len[3]; memset(full,0,sizeof full);
+  for(int i=0;i<nl;i++){ if(cd.cfg[i].nsamples<3000) cd.cfg[i].nsamples=3000+(long)rng_below(&r,5000); if(cd.cfg[i].channels>6) cd.cfg[i].channels=2; cd.goffset[i]=0; }
+  cd.goffset[bt]=-(long)rng_range(&r,1,4000);
+  chain_describe(&cd,desc,sizeof desc-80);
+  for(int i=0;i<nl;i++){
+    encres_t er; if(enc_run(&cd.cfg[i],&er)){ encres_free(&er); res_sample("encoder refused"); goto out; }
+    if(full_decode(&er.pk,&full[i])){ encres_free(&er); res_viol("C07","harness:packet-decode-failed","%s",desc); goto out; }
+    long N=cd.cfg[i].nsamples; vh_mux_link(&er.pk,&cd,i,&phys); trim[i]=N-cd.cfg[i].nsamples; len[i]=cd.cfg[i].nsamples; encres_free(&er);
+    if(full[i].n!=N){ res_viol("C04","packet-decode-count","%ld vs %ld",full[i].n,N); goto out; }
+  }
+  { size_t k=strlen(desc); snprintf(desc+k,sizeof desc-k," | link %d begin-trimmed by %ld",bt,trim[bt]); }
+  if(trim[bt]==0){ res_sample("no trim possible: %s",desc); goto out; }
+  vh_dump("stream.ogg",phys.p,phys.n);
+  {
+    OggVorbis_File vf; memsrc_t ms; memsrc_init(&ms,phys.p,phys.n,1);
+    if(ov_open_callbacks(&ms,&vf,NULL,0,memsrc_cb(&ms))){ res_viol("C07","begin-trimmed-link:open-failed","%s",desc); goto out; }
+    res_eval(1);
+    if(ov_streams(&vf)!=nl) res_viol("C09","begin-trimmed-link:link-count","%ld links, built %d: %s",ov_streams(&vf),nl,desc);
+    int64_t start[4]; start[0]=0; for(int i=0;i<nl;i++){ start[i+1]=start[i]+len[i]; if(ov_pcm_total(&vf,i)!=len[i]) res_viol("C09","begin-trimmed-link:total-length","link %d: ov_pcm_total %lld, %ld samples remain after the trim: %s",i,(long long)ov_pcm_total(&vf,i),len[i],desc); }
+    if(!res_nviol()){
+      /* linear read */
+      long got[3]={0,0,0}; float **pcm; int bs=0; long g; int64_t running=0; int posbad=0, audbad=0;
+      float **kept[3]; long kcap[3]; for(int i=0;i<nl;i++){ kcap[i]=full[i].n+8; kept[i]=calloc(full[i].ch,sizeof(float*)); for(int c=0;c<full[i].ch;c++) kept[i][c]=malloc(sizeof(float)*kcap[i]); }
+      while(1){ int64_t tb=ov_pcm_tell(&vf); if(tb!=running && !posbad){ posbad=1; res_viol("C07","begin-trimmed-link:position-differs-from-samples-delivered","tell %lld after %lld samples were delivered (link %d): %s",(long long)tb,(long long)running,bs,desc); }
+        g=ov_read_float(&vf,&pcm,(int)rng_range(&r,1,3000),&bs); if(g<=0) break; res_eval(1);
+        if(bs<0||bs>=nl){ res_viol("C07","begin-trimmed-link:link-index","%d",bs); break; }
+        if(got[bs]+g<=kcap[bs]) for(int c=0;c<full[bs].ch;c++) memcpy(kept[bs][c]+got[bs],pcm[c],sizeof(float)*g); else audbad=2;
+        got[bs]+=g; running+=g; }
+      if(g<0) res_viol("C07","begin-trimmed-link:linear-read-error","read returned %ld: %s",g,desc);
+      for(int i=0;i<nl;i++){
+        if(got[i]!=len[i]) res_viol("C07","begin-trimmed-link:link-delivers-other-than-its-length","link %d (trim %ld) delivered %ld samples, its length is %ld: %s",i,trim[i],got[i],len[i],desc);
+        /* whatever was delivered must at least END like the expected audio (the trim can only have been applied short) */
+        long m=VH_MIN(got[i],len[i]); if(m>kcap[i]) m=kcap[i];
+        for(int c=0;c<full[i].ch && audbad==0;c++) if(memcmp(kept[i][c]+got[i]-m,full[i].pcm[c]+full[i].n-m,sizeof(float)*m)){ audbad=1; res_viol("C07","begin-trimmed-link:audio-differs","link %d ch %d: the last %ld delivered samples differ from the untrimmed decode's last %ld: %s",i,c,m,m,desc); }
+      }
+      for(int i=0;i<nl;i++){ for(int c=0;c<full[i].ch;c++) free(kept[i][c]); free(kept[i]); }
+      if(!posbad && !res_nviol()) res_bucket("begin-trim|linear|links%d|bt%d",nl,bt);
+      /* seeks: position p of link l is sample p-start[l]+trim[l] of the untrimmed decode */
+      int64_t T=start[nl];
+      for(int q=0;q<(a->thorough?60:25);q++){
+        int64_t p= q<6? start[bt]+(int64_t)rng_range(&r,0,VH_MIN(len[bt]-1,1500)) : (int64_t)rng_range(&r,0,(long)T-1);
+        int l=0; while(l+1<nl && p>=start[l+1]) l++;
+        int rs=ov_pcm_seek(&vf,p); res_eval(1); const char *where=(l==bt && p-start[l]<6000)?"near-the-trimmed-start":"elsewhere";
+        char key[96];
+        if(rs){ snprintf(key,sizeof key,"begin-trimmed-link:seek-fails-%s",where); res_viol("C08",key,"ov_pcm_seek(%lld) = %d: %s",(long long)p,rs,desc); continue; }
+        if(ov_pcm_tell(&vf)!=p){ snprintf(key,sizeof key,"begin-trimmed-link:seek-position-%s",where); res_viol("C08",key,"ov_pcm_seek(%lld) left tell %lld: %s",(long long)p,(long long)ov_pcm_tell(&vf),desc); continue; }
+        long want=VH_MIN(400,(long)(start[l+1]-p)); long have=0; int bad=0;
+        while(have<want && !bad){ g=ov_read_float(&vf,&pcm,(int)(want-have),&bs); if(g<=0||bs!=l){ bad=2; break; }
+          for(int c=0;c<full[l].ch;c++) if(memcmp(pcm[c],full[l].pcm[c]+(p-start[l])+trim[l]+have,sizeof(float)*g)){ bad=1; break; } have+=g; }
+        if(bad){ snprintf(key,sizeof key,"begin-trimmed-link:audio-after-seek-%s",where); res_viol("C07",key,"after ov_pcm_seek(%lld) (link %d, %lld into it): %s: %s",(long long)p,l,(long long)(p-start[l]),bad==2?"read failed or changed link":"audio differs from the untrimmed decode at that position",desc); }
+        else res_bucket("begin-trim|seek|%s|%s",where,l==bt?"trimmed-link":"other-link");
+      }
+    }
+    if(!res_nviol()){ /* the trim was applied exactly at full rate: at half rate the link must then deliver ceil(len/2) samples (C20) */
+      if(ov_halfrate(&vf,1)==0 && ov_pcm_seek(&vf,0)==0){ long got[3]={0,0,0}; float **pcm; int bs=0; long g; while((g=ov_read_float(&vf,&pcm,2048,&bs))>0){ if(bs>=0&&bs<nl) got[bs]+=g; } res_eval(1);
+        for(int i=0;i<nl;i++) if(got[i]!=(len[i]+1)/2){ char key[96];
+          /* the half-rate trim is floor(t/2) output samples; with t odd and an odd untrimmed length that is one sample more than ceil(length/2) - its own key, every other parity stays under the plain one */
+          snprintf(key,sizeof key,"begin-trimmed-link:halfrate-sample-count%s",(trim[i]&1)&&(full[i].n&1)&&got[i]==(len[i]+1)/2+1?":odd-trim-of-odd-length-stream":"");
+          res_viol("C20",key,"link %d (trim %ld, length %ld, untrimmed %ld) delivers %ld samples at half rate, expected %ld: %s",i,trim[i],len[i],full[i].n,got[i],(len[i]+1)/2,desc); }
+        if(!res_nviol()) res_bucket("begin-trim|halfrate-count|trim-%s|len-%s",(trim[bt]&1)?"odd":"even",(len[bt]&1)?"odd":"even"); }
+    }
+    ov_clear(&vf);
+  }
+out:
+  res_sample("%s",desc);
+  for(int i=0;i<3;i++) full_free(&full[i]);
+  buf_free(&phys); res_end();
+}
+
 int main(int argc,char **argv){
   drvargs_t a; if(drv_parse(argc,argv,&a)) return 2;
-  for(long i=a.first;i<a.first+a.count;i++) run_case(&a,i);
+  for(long i=a.first;i<a.first+a.count;i++){ if(!strcmp(a.mode,"c07b")) case_c07b(&a,i); else run_case(&a,i); }
   return 0;
 }
